@@ -13,6 +13,9 @@ MModel(i) ==
     [] i = 2 -> [bias |-> 2, cw |-> 2, tw |-> 1, cng |-> << [ng |-> <<97>>, w |-> <<-50, -50, -50, -50>>], [ng |-> <<12354, 65345>>, w |-> <<3, -9, 4>>] >>,
                  tng |-> << [ng |-> <<2>>, w |-> <<-3, 1>>], [ng |-> <<1, 2>>, w |-> <<-7>>] >>,
                  dict |-> << [ng |-> <<65297, 8722>>, w |-> <<4, -6, 4>>] >>, tags |-> <<>>]
+    \* keyed on ー (12540), the normal form of the NON-ASCII table sources － (65293) and ― (8213)
+    [] i = 4 -> [bias |-> 3, cw |-> 1, tw |-> 1, cng |-> << [ng |-> <<12540>>, w |-> <<-9, -9>>] >>,
+                 tng |-> <<>>, dict |-> << [ng |-> <<12354, 12540>>, w |-> <<1, -20, 1>>] >>, tags |-> <<>>]
     [] i = 3 -> [bias |-> 1, cw |-> 1, tw |-> 2, cng |-> <<>>, tng |-> << [ng |-> <<6>>, w |-> <<-2, 0, -2, 0>>] >>,
                  dict |-> << [ng |-> <<28450, 28450>>, w |-> <<2, -8, 2>>] >>, tags |-> <<>>]
 
